@@ -172,9 +172,9 @@ def run(F, S, R, tier):
         K.cmp_table(R, "cmp/since-abs-number", ab, [r"call:.*TxVerifyEnv::block_number$"], [], IM, E, what="absolute block-number since: env < since is immature")
         K.cmp_table(R, "cmp/since-abs-epoch", ab, [r"call:.*TxVerifyEnv::epoch$"], [r"call:.*normalize$"], IM, E, what="absolute epoch since")
         K.cmp_table(R, "cmp/since-abs-time", ab, [r"call:.*block_median_time$"], [], IM, E, what="absolute timestamp since")
-        K.cmp_table(R, "cmp/since-rel-number", rl, [r"call:.*TxVerifyEnv::block_number$"], [r"field:.*TransactionInfo\.block_number"], IM, E, what="relative block-number since", arith=([], ["op:add"]))
+        K.cmp_table(R, "cmp/since-rel-number", rl, [r"call:.*TxVerifyEnv::block_number$"], [r"field:.*TransactionInfo\.block_number"], IM, E, what="relative block-number since", arith=([], ["op:saturating_add"]))
         K.cmp_table(R, "cmp/since-rel-epoch", rl, [r"call:.*TxVerifyEnv::epoch$"], [r"field:.*TransactionInfo\.block_epoch", r"call:.*normalize$"], IM, E, what="relative epoch since", arith=([], ["op:add"]))
-        K.cmp_table(R, "cmp/since-rel-time", rl, [r"call:.*block_median_time$"], [r"call:.*get_header_fields$|call:.*parent_median_time$"], IM, E, what="relative timestamp since", arith=([], ["op:add"]))
+        K.cmp_table(R, "cmp/since-rel-time", rl, [r"call:.*block_median_time$"], [r"call:.*get_header_fields$|call:.*parent_median_time$"], IM, E, what="relative timestamp since", arith=([], ["op:saturating_add"]))
         K.reqerr(R, "reqerr/since-abs", [ab], {(TE, "Immature"): 3, (TE, "InvalidSince"): 2}, what="absolute since rejection")
         K.reqerr(R, "reqerr/since-rel", [rl], {(TE, "Immature"): 4, (TE, "InvalidSince"): 2}, what="relative since rejection")
         # the time base uses the commit position's parent
@@ -303,6 +303,15 @@ def run(F, S, R, tier):
         K.cmp_table(R, "cmp/pool-size-limit", ncv, [r"call:.*serialized_size_in_block$"], [r"const:.*TRANSACTION_SIZE_LIMIT"], {"<": "CONT", "=": "CONT", ">": "ERR"}, E, what="pool transaction size limit")
         K.must_fail(R, "mustfail/pool-cellbase", ncv, assume=[(r"TransactionView::is_cellbase$", True)], what="cellbase-like transactions never enter the pool")
     R.guard("cmp/boundaries", boundaries)
+
+    # 3b. F18 (fixed): a `since` is chosen by the transaction's author; the verifier must give a verdict for every 64-bit value.
+    # `value * 1000` (timestamp metric) and `base + value` (relative locks) used to be overflow-checked: a panic in the pool's verify worker and
+    # in the block verifier (ckb's release profile keeps overflow checks).
+    def since_total():
+        V = "ckb_verification"
+        bodies = [F.one(V, r"transaction_verifier::Since::extract_metric$"), F.one(V, r"SinceVerifier::<DL>::verify_absolute_lock$"), F.one(V, r"SinceVerifier::<DL>::verify_relative_lock$")]
+        K.no_panicking_arith(R, "affine/since-no-overflow", bodies, ("Add", "Mul", "Sub", "Shl"), "since arithmetic (F18)")
+    R.guard("affine/since-no-overflow", since_total)
 
     # ---------------------------------------------------------------- 4. commit-position arithmetic
     def env():
